@@ -14,6 +14,19 @@ open EqsigVerif EqsigVerif.Wire EqsigVerif.Cplx
 /-- `if b: raise E` — `guardE true .ValueError = .error .ValueError`, `guardE false e = .ok ()` -/
 def guardE (b : Bool) (e : ErrKind) : Except ErrKind Unit := if b then .error e else .ok ()
 
+/-- `try: body / except K: handler` — the handler runs iff the body raised `K`.
+`tryCatchE (.error .TypeError) .TypeError (.ok 1) = .ok 1`, `tryCatchE (.error .ValueError) .TypeError (.ok 1) = .error .ValueError` -/
+def tryCatchE {γ : Type} (body : Except ErrKind γ) (k : ErrKind) (handler : Except ErrKind γ) : Except ErrKind γ :=
+  match body with
+  | .error e => if e = k then handler else .error e
+  | .ok v => .ok v
+
+/-- `sep.join(parts)` on strings as character lists.  `joinL [','] [['a'], ['b', 'c']] = ['a', ',', 'b', 'c']` -/
+def joinL (sep : List Char) : List (List Char) → List Char
+  | [] => []
+  | [l] => l
+  | l :: ls => l ++ sep ++ joinL sep ls
+
 /-! ### indexing with Python integers -/
 section Index
 variable {γ : Type}
@@ -114,6 +127,29 @@ end Tri
 field, while NumPy returns `[0.]`).  `linspace01 3 = [0, 1/2, 1]` -/
 def linspace01 {γ : Type} [Div γ] [NatCast γ] (n : Nat) : List γ :=
   (List.range n).map fun (i : Nat) => ((i : Nat) : γ) / (((n - 1 : Nat) : Nat) : γ)
+
+/-! ### complex arrays, transforms along an axis (targets of the Stockwell translation) -/
+section Cx
+variable {α β : Type} [Add β] [Mul β] [Div β] [OfNat β 0] [NatCast α] [CxLike α β]
+
+/-- `scipy.linalg.toeplitz(c, r)`: first column `c`, first row `[c[0], r[1:]]` (SciPy ignores `r[0]`): `T[i][j] = c[i-j]` for `j ≤ i`,
+`r[j-i]` for `j > i`.  `toeplitz [1, 2] [9, 5, 6] = [[1, 5, 6], [2, 1, 5]]` -/
+def toeplitz {γ : Type} [OfNat γ 0] (c r : List γ) : List (List γ) :=
+  (List.range c.length).map (fun i => (List.range r.length).map (fun j =>
+    if j ≤ i then c.getD (i - j) 0 else r.getD (j - i) 0))
+
+/-- `np.fft.ifft(M, axis=1)` of a 2-d array given by rows: the inverse transform of every row at its own length; `ValueError`
+("Invalid number of FFT data points") when the rows are empty (an array without rows is returned unchanged) -/
+def ifftRowsE (tw : Nat → Nat → β) (M : List (List β)) : Except ErrKind (List (List β)) :=
+  M.mapM (fun row => NpE.ifft tw row row.length)
+
+end Cx
+
+/-- `np.argmax(M, axis=0)` of a rectangular 2-d array given by rows: for every column the row index of its first maximum;
+`ValueError` ("attempt to get argmax of an empty sequence") for an array without rows.  `argmaxAxis0E [[1, 5], [3, 2]] = .ok [1, 0]` -/
+def argmaxAxis0E {γ : Type} [LT γ] [DecidableLT γ] [OfNat γ 0] (M : List (List γ)) : Except ErrKind (List Nat) :=
+  if M.length = 0 then .error .ValueError
+  else .ok ((List.range ((M.head?.map List.length).getD 0)).map (fun j => Np.argmax (M.map (fun row => row.getD j 0))))
 
 /-! ### Python float arithmetic -/
 
